@@ -41,11 +41,15 @@ PROPS["C07"] = dict(
 )
 
 PROPS["C10"] = dict(
-    modules=["Proofs.C10"],
-    theorems=['Goflow.C10.parser_table_matches', 'Goflow.C10.guards_cover_indices', 'Goflow.C10.encap_preserves_outer', 'Goflow.C10.icmp_terminal', 'Goflow.C10.icmp_first_only', 'Goflow.C10.encap_rule', 'Goflow.C10.encap_monotone', 'Goflow.C10.layer_sizes'],
+    modules=["Proofs.C10", "Proofs.C10Full", "Proofs.C10Trunc"],
+    theorems=['Goflow.C10.parser_table_matches', 'Goflow.C10.guards_cover_indices', 'Goflow.C10.encap_preserves_outer', 'Goflow.C10.icmp_terminal', 'Goflow.C10.icmp_first_only', 'Goflow.C10.encap_rule', 'Goflow.C10.encap_monotone', 'Goflow.C10.layer_sizes',
+              'Goflow.C10.full_capture', 'Goflow.C10.full_capture_cfg', 'Goflow.C10.full_capture_plain', 'Goflow.C10.full_capture_v6ext', 'Goflow.C10.full_capture_mpls', 'Goflow.C10.full_capture_tunnel',
+              'Goflow.C10.sampleFrame_wf', 'Goflow.C10.sampleTunnel_wf',
+              'Goflow.C10.trunc_capture_cfg', 'Goflow.C10.trunc_capture_eq', 'Goflow.C10.expectedAt_mono', 'Goflow.C10.expectedAt_full', 'Goflow.C10.expectedAt_below',
+              'Goflow.C10.trunc_capture', 'Goflow.C10.trunc_capture_cfg_below', 'Goflow.C10.trunc_capture_sizes'],
     generators=[dict(name="C10", quick=150, thorough=10000)],
     harness=["impl"],
-    level_text="Theorems: parser table and loop body equal the regenerated ones; guards cover every index; encapsulation flags along parser chains (encap_rule, encap_monotone, encap_preserves_outer); ICMP rules; layer sizes; full_capture (every well-formed fully captured frame of the grammar, incl. extension headers, MPLS, GRE / IP-in-IP nesting, is reported exactly as the frame specification says) when Proofs.C10Full is listed in the evidence. Truncated captures: tied by the frame oracle at every capture length (and by C10Trunc when listed).",
+    level_text="Theorems: parser table and loop body equal the regenerated ones; guards cover every index; encapsulation flags along parser chains (encap_rule, encap_monotone, encap_preserves_outer); ICMP rules; layer sizes; full_capture (every well-formed fully captured frame of the grammar, incl. extension headers, MPLS, GRE / IP-in-IP nesting, is reported exactly as the frame specification says); truncated captures: trunc_capture_cfg (for every well-formed frame and every capture length n the dissector reports exactly expectedAt f n) and expectedAt_below / trunc_capture (that message is below the full one: every scalar column unset or the true value, every list column a prefix, one size per reported layer with only the last possibly smaller; Etype / VlanId may be those of an outer L2 header), expectedAt_mono. The frame oracle at every capture length ties model and code.",
 )
 
 PROPS["C06"] = dict(
